@@ -28,7 +28,10 @@ def bfs(block, static, cfg, init, moves, to_init, limit=4000, tag="bfs"):
             if len(cases) >= limit:
                 return cases, False
             case = {"block": block, "static": static, "cfg": cfg, "init": a, "steps": [step], "every": 1, "src": tag}
+            if a is init and not cases:
+                case["root"] = True
             cases.append(case)
+            case["every"] = 0          # light observation (descriptor, applied method, returned values) ...
             try:
                 obs = cached_run(case)
                 rec = obs["steps"][0]
@@ -39,6 +42,9 @@ def bfs(block, static, cfg, init, moves, to_init, limit=4000, tag="bfs"):
                 continue
             if hk(nxt) not in seen:
                 seen.add(hk(nxt)); queue.append(nxt)
+                # ... and the full one (state_dict layout, forward, rebuild from init_dict) once per architecture
+                CACHE.pop(B.key_case(case), None)
+                case["every"] = 1
     return cases, complete
 
 
@@ -85,7 +91,7 @@ def gen_mlp(tier, rng):
     cases = []
     ex = True
     cfg = {"min_hidden_layers": 1, "max_hidden_layers": 3, "min_mlp_nodes": 3, "max_mlp_nodes": 13}
-    c, e = bfs("mlp", MLP_STATIC, cfg, [8], mlp_moves_explicit((4, 5) if tier == "quick" else (1, 4, 5)), lambda d: d["widths"],
+    c, e = bfs("mlp", MLP_STATIC, cfg, [8], mlp_moves_explicit((4,) if tier == "quick" else (4, 5)), lambda d: d["widths"],
                limit=1500 if tier == "quick" else 20000)
     cases += c; ex &= e
     cfg2 = {"min_hidden_layers": 1, "max_hidden_layers": 2, "min_mlp_nodes": 16, "max_mlp_nodes": 80}
@@ -184,3 +190,62 @@ def generate_cases(tier, rng):
 
 GENERATORS = [gen_mlp, lambda t, r: gen_scalar("lstm", t, r), lambda t, r: gen_scalar("simba", t, r),
               lambda t, r: gen_scalar("resnet", t, r)]
+
+
+# ------------------------------------------------------------------ CNN
+def cnn_moves(quick):
+    def moves(a):
+        n = len(a["channels"])
+        out = [S("add_layer", (0, 0)), S("add_layer", (1, 0)), S("add_layer", (0, 1)), S("add_layer", (2, 1))]
+        for r1 in range(n):
+            out.append(S("remove_layer", (r1, 0)))
+        for r1 in range(3):
+            for r2 in range(3):
+                out.append(S("change_kernel", (r1, r2)))
+        out.append(S("change_kernel", (1, 1), kernel_size=1, hidden_layer=n - 1))
+        out.append(S("change_kernel", (2, 1), hidden_layer=n - 1))
+        for hl in ((0, n) if quick else range(n + 1)):
+            out.append(S("add_channel", hidden_layer=hl, numb_new_channels=4))
+            out.append(S("remove_channel", hidden_layer=hl, numb_new_channels=4))
+        out.append(S("add_channel", (n - 1, 0)))
+        out.append(S("remove_channel", (0, 0)))
+        out.append(S("remove_channel", (1,), hidden_layer=0))
+        return out
+    return moves
+
+
+def cnn_to_init(d):
+    return {"channels": d["widths"], "kernels": d["kernels"], "strides": d["strides"]}
+
+
+def gen_cnn(tier, rng):
+    cases, ex = [], True
+    quick = tier == "quick"
+    st = {"input_shape": [2, 16, 16], "num_outputs": 3, "layer_norm": False, "init_layers": False}
+    cfg = {"min_hidden_layers": 1, "max_hidden_layers": 3, "min_channel_size": 4, "max_channel_size": 8}
+    c, e = bfs("cnn", st, cfg, {"channels": [4], "kernels": [3], "strides": [1]}, cnn_moves(quick), cnn_to_init,
+               limit=1500 if quick else 30000)
+    cases += c; ex &= e
+    st2 = {"input_shape": [1, 34, 30], "num_outputs": 2, "layer_norm": True, "init_layers": False}
+    cfg2 = {"min_hidden_layers": 1, "max_hidden_layers": 2, "min_channel_size": 8, "max_channel_size": 24}
+    c, e = bfs("cnn", st2, cfg2, {"channels": [8], "kernels": [4], "strides": [2]}, cnn_moves(True), cnn_to_init,
+               limit=600 if quick else 30000, tag="bfs-drawn")
+    cases += c; ex &= e
+    nw, ln = (4, 40) if quick else (30, 300)
+    for w in range(nw):
+        hw = rng.choice([(32, 32), (48, 40), (64, 64)] if not quick else [(32, 32), (40, 36)])
+        static = {"input_shape": [3, *hw], "num_outputs": rng.choice([4, 16]), "layer_norm": rng.random() < 0.4, "init_layers": False}
+        cfg = {"min_hidden_layers": 1, "max_hidden_layers": 6, "min_channel_size": 32, "max_channel_size": 256 if not quick else 96}
+        init = rng.choice([{"channels": [32, 32], "kernels": [3, 3], "strides": [1, 1]},
+                           {"channels": [32, 64], "kernels": [8, 4], "strides": [4, 2]} if hw[0] >= 48 else
+                           {"channels": [32], "kernels": [4], "strides": [2]},
+                           {"channels": [64], "kernels": [5], "strides": [1]}])
+        steps = []
+        for _ in range(ln):
+            m = rng.choice(["add_layer", "remove_layer", "change_kernel", "change_kernel", "add_channel", "remove_channel"])
+            steps.append(S(m, (rng.randrange(1000), rng.randrange(1000))))
+        cases.append({"block": "cnn", "static": static, "cfg": cfg, "init": init, "steps": steps, "every": 10, "src": "walk"})
+    return cases, ex
+
+
+GENERATORS.append(gen_cnn)
